@@ -694,6 +694,35 @@ fn body(ctx: &mut Ctx) {
                 other => ctx.viol(format!("u64-token sequence hint={:?}", h), "in-range u64 tokens rejected", vec![], "7".into(), format!("{:?}", other.map_dbg())),
             }
         }
+        // the sign delivered through a wider integer token (what a self-describing format does): values other than
+        // -1, 0, 1 must be rejected whatever the width -- no truncation to 8 bits -- and the three valid ones accepted
+        for mag in [vec![Tok::Seq(Some(1)), Tok::U32(5), Tok::SeqEnd], vec![Tok::Seq(Some(0)), Tok::SeqEnd]] {
+            for s in [2i64, -2, 127, 128, 255, 256, 257, -255, -256, -257, 65535, 65536, 65537, (1 << 32) - 1, 1 << 32, (1 << 32) + 1, -(1 << 32) - 1, i64::MAX, i64::MIN, i64::MIN + 1, 1, 0, -1] {
+                for wide in [Tok::I64(s), Tok::U64(s as u64)] {
+                    if matches!(wide, Tok::U64(_)) && s < 0 {
+                        continue;
+                    }
+                    ctx.case();
+                    ctx.nontrivial(1);
+                    ctx.compared(1);
+                    let mut t = vec![Tok::Tuple(2), wide.clone()];
+                    t.extend(mag.clone());
+                    t.push(Tok::TupleEnd);
+                    let r = call(ctx, || replay::<BigInt>(&t, Hint::Exact).map(|y| int_of(&y)));
+                    let valid = (-1..=1).contains(&s);
+                    let nonzero = mag.len() > 2;
+                    let ok = if valid {
+                        let want = if s == 0 || !nonzero { Int::zero() } else { Int::new(s < 0, Nat::from_u64(5)) };
+                        r == Out::Ret(Ok(want))
+                    } else {
+                        matches!(r, Out::Ret(Err(_)))
+                    };
+                    if !ok {
+                        ctx.viol(format!("wide sign token {:?} mag={}", wide, if nonzero { "[5]" } else { "[]" }), "a sign delivered through a wider integer: -1, 0, 1 must be accepted, every other value rejected (no truncation)", vec![], if valid { "the denoted value".into() } else { "Err".into() }, format!("{:?}", r));
+                    }
+                }
+            }
+        }
         // wrong tuple arity / missing parts for BigInt
         for t in [vec![Tok::Tuple(1), Tok::I8(1), Tok::TupleEnd], vec![Tok::Tuple(2), Tok::Seq(Some(0)), Tok::SeqEnd, Tok::I8(1), Tok::TupleEnd], vec![Tok::Tuple(0), Tok::TupleEnd]] {
             ctx.case();
